@@ -299,6 +299,40 @@ example : marginalRaw [1/16, 1/16, 1/8, 1/4, 1/16, 3/16, 1/8, 1/8] [2, 2, 2] [0,
 example : conditionalRaw [1/16, 1/16, 1/8, 1/4, 1/16, 3/16, 1/8, 1/8] [2, 2, 2] [0, 2] [1, 0]
     = ([2], [1/16, 1/8]) := by decide +kernel
 
+/-! ## marginals and conditionals "stay normalised with the documented zero threshold" -/
+
+/-- C16.l whatever `marginalize` returns went through the constructor with the documented default threshold: it is either the flagged
+zero distribution or passes the sum check (|Σ − 1| ≤ 1e-8), its shape is the projection of the shape onto the retained variables
+(ascending), and it has one entry per multi-index of that shape. -/
+theorem marginalize_normalised (d : Dist) (remain : List Nat) (d' : Dist)
+    (h : marginalize d remain = .ok d') :
+    d'.shape = project d.shape remain ∧ d'.ps.length = prod d'.shape ∧
+      (d'.isZero = true ∨ validate d'.ps true = .ok ()) := by
+  unfold marginalize at h
+  simp only [bind, Except.bind] at h
+  split at h
+  · cases h
+  · split at h
+    · cases h
+    · obtain ⟨h1, h2, h3⟩ := ctor_ok _ _ _ _ h
+      refine ⟨by rw [h1]; rfl, by rw [h2, h1], h3⟩
+
+/-- C16.l the same for `conditionalize`: a returned conditional is the flagged zero distribution or passes the sum check, over the
+variables that were not conditioned on. -/
+theorem conditionalize_normalised (d : Dist) (idxs vals : List Nat) (d' : Dist)
+    (h : conditionalize d idxs vals = .ok d') :
+    d'.shape = (conditionalRaw d.ps d.shape idxs vals).1 ∧ d'.ps.length = prod d'.shape ∧
+      (d'.isZero = true ∨ validate d'.ps true = .ok ()) := by
+  unfold conditionalize at h
+  simp only [bind, Except.bind] at h
+  repeat (split at h <;> try cases h)
+  obtain ⟨h1, h2, h3⟩ := ctor_ok _ _ _ _ h
+  exact ⟨h1, by rw [h2, h1], h3⟩
+
+example : (marginalize ⟨[1/8, 1/8, 1/4, 1/2], [2, 2], false⟩ [1]).toOption = some ⟨[3/8, 5/8], [2], false⟩ := by decide +kernel
+example : (conditionalize ⟨[1/8, 1/8, 1/4, 1/2], [2, 2], false⟩ [0] [1]).toOption = some ⟨[1/3, 2/3], [2], false⟩ := by
+  decide +kernel
+
 /-! ## the definitions regenerated from /repo's source on this run (`QGen/C16.lean`)
 
 `harness/c16_translate.py` rewrites `QGen.C16.multiBody`, `serialBody`, their initial states, iteration / result directions,
